@@ -35,6 +35,7 @@ type tpl struct {
 	name     string
 	src      string
 	reads    []string // must be declared by the host, else "unresolved reference" at compile time
+	builtin  []string // read too, but named like a builtin function: undeclared, the name means that builtin
 	defs     []string // defined with := at top level: become script globals; a host-declared name here is "redeclared"
 	parseErr bool
 	mutatesA bool // writes into the container held by a
@@ -45,6 +46,9 @@ type tpl struct {
 }
 
 var compiledFnSentinel = &tengo.CompiledFunction{}
+
+// builtinLenSentinel stands for the builtin `len` (compared by type and name).
+var builtinLenSentinel = &tengo.BuiltinFunction{Name: "len"}
 
 // plusOne: `v + 1` per docs/operators.md: int+int=int (wrapping), float+int=
 // float, char+int=char, string+other=string (string-converted), time+int=time
@@ -191,6 +195,18 @@ var templates = []*tpl{
 		run: func(v map[string]tengo.Object) bool {
 			v["f"] = compiledFnSentinel
 			v["x"] = &tengo.Array{Value: []tengo.Object{v["a"]}}
+			return false
+		}},
+	// a host variable named like a builtin function shadows the builtin
+	// (Script.prepCompile defines the builtins first, the variables after them)
+	{name: "builtin-named-input", src: "x := len\ny := [len, a]", reads: []string{"a"}, builtin: []string{"len"}, defs: []string{"x", "y"},
+		run: func(v map[string]tengo.Object) bool {
+			l, declared := v["len"]
+			if !declared {
+				l = builtinLenSentinel
+			}
+			v["x"] = l
+			v["y"] = &tengo.Array{Value: []tengo.Object{l, v["a"]}}
 			return false
 		}},
 	{name: "conditional-fail", src: "x := a\ny := b + 1", reads: []string{"a", "b"}, defs: []string{"x", "y"},
